@@ -41,8 +41,8 @@ STATE_UNITS = {'vorticity': '1/s', 'divergence': '1/s', 'temperature_variation':
 RULE = ('Hypothesis draws an SI problem (radius, rotation rate, gravity, gas constants, kappa, reference profile, mean '
         'surface pressure, orography, densities / reference potentials, time step, filter time scales), a target '
         '(dry, moist, Held-Suarez, shallow water), a grid and levels, two unit scales (named default/atmospheric or '
-        'four base units log-uniform over 12 decades; 6 decades around the default for sub-checks that invert the '
-        'implicit matrix) and a list of SI states; both set-ups are built through *Specs.from_si(scale=...) and '
+        'four base units log-uniform over 12 decades; within 3.5 decades of the default for sub-checks that invert '
+        'the implicit matrix) and a list of SI states; both set-ups are built through *Specs.from_si(scale=...) and '
         'Grid(radius=specs.radius); oracle = the other scale: outputs converted with dimensionalize agree leaf by leaf '
         'within 1e-9 of the largest entry of the leaf (lnps up to its additive constant ln(pressure unit) on the (0,0) '
         'coefficient); distinct = hash of the JSON case; non-trivial = the two scales differ by more than a factor 10 '
@@ -54,7 +54,7 @@ ASSUMPTIONS = [
     'log_surface_pressure of the same physical state differs between scales by ln(pressure unit ratio) on the (0,0) '
     'coefficient (times sqrt(4 pi)); the comparison removes exactly that constant, tendencies of lnps are compared '
     'as they are',
-    'sub-checks that invert (1 - eta*implicit) use scales within 3 decades of the default per base unit: the matrix '
+    'sub-checks that invert (1 - eta*implicit) use scales within 3.5 decades of the default per base unit: the matrix '
     'is numerically inverted in non-dimensional variables and an extreme ratio of temperature / time units makes it '
     'arbitrarily badly row-scaled (a floating point limit of any dense solve, not a units defect); pure tendencies '
     'use the full 12 decades',
@@ -66,7 +66,7 @@ ASSUMPTIONS = [
 MANIFEST = {
     'text': 'For generated SI problems and pairs of unit scales spanning 12 decades per base unit, the dimensionalised '
             'explicit and implicit tendencies of the dry and moist primitive equations, the Held-Suarez forcing and '
-            'the layered shallow-water equations agree to 1e-9 relative (measured 1e-14); with scales within 3 decades '
+            'the layered shallow-water equations agree to 1e-9 relative (measured 1e-14); with scales within 3.5 decades '
             'of the default the implicit solve and filtered 1-6 step trajectories of SIL3, CN-RK2/3/4, backward-forward '
             'Euler and leapfrog agree as well, including Held-Suarez forcing composed with the dynamics.',
     'note': 'Metamorphic: the implementation is compared with itself under a change of units; pint and '
@@ -90,8 +90,31 @@ def _near_default_quad(draw, decades):
   return [float(d * 10.0 ** draw(st.floats(-decades, decades, allow_nan=False, width=32))) for d in _DEFAULT_QUAD]
 
 
+@st.composite
+def _near_default_pair(draw):
+  """Scale A = default | atmospheric | within one decade of the default; scale B = A moved by 1.25 - 2.5 decades in
+  at least two base dimensions (so that the pair is non-trivial by construction), everything within 3.5 decades of
+  the default."""
+  a = draw(_named_or_custom(_near_default_quad(1.0)))
+  qa = _quad(a)
+  moved = draw(st.lists(st.booleans(), min_size=4, max_size=4))
+  if sum(moved) < 2:
+    moved = [True, True] + moved[2:]
+  qb = []
+  for i in range(4):
+    base = qa[i] if i != 2 else _DEFAULT_QUAD[2]      # mass: relative to 1 kg (atmospheric mass is 18 decades away)
+    if moved[i]:
+      d = draw(st.sampled_from([1.0, -1.0])) * draw(st.floats(1.25, 2.5, allow_nan=False, width=32))
+    else:
+      d = draw(st.floats(-1.0, 1.0, allow_nan=False, width=32))
+    qb.append(float(base * 10.0 ** d))
+  return [a, {'kind': 'custom', 'quad': qb}]
+
+
 def _scale_pair(wide):
-  custom = gens.scale_quads() if wide else _near_default_quad(3.0)
+  if not wide:
+    return _near_default_pair()
+  custom = gens.scale_quads()
   return st.tuples(_named_or_custom(custom), custom.map(lambda q: {'kind': 'custom', 'quad': q})).map(list)
 
 
@@ -104,7 +127,7 @@ def _case(draw, tier, targets, stepping):
   big = tier == 'thorough'
   target = draw(st.sampled_from(list(targets)))
   gkind = draw(st.sampled_from(['vector', 'quadratic', 'any']))
-  g = draw(gens.grid_configs(kind=gkind, min_m=2, max_m=10 if big else 6, spacings=('gauss', 'gauss', 'equiangular'),
+  g = draw(gens.grid_configs(kind=gkind, min_m=3, max_m=10 if big else 6, spacings=('gauss', 'gauss', 'equiangular'),
                              allow_radius=False, max_slack=3))
   g['nlon'] = max(g['nlon'], g['M'], 2)
   g['nlat'] = max(g['nlat'], 2)
@@ -120,7 +143,8 @@ def _case(draw, tier, targets, stepping):
     si['ref_potential'] = [float(draw(st.sampled_from([1.0e4, 3.0e4, 5.0e4]))) for _ in range(n)]
     fields = ['vorticity', 'divergence', 'potential']
   else:
-    b = draw(gens.sigma_boundaries(1, 6 if big else 4))
+    b = ([0.0, 1.0] if draw(st.sampled_from([False] * 7 + [True])) else    # a single layer 1 time in 8
+         draw(gens.sigma_boundaries(2, 6 if big else 4, kinds=('uneven', 'uneven', 'hybrid', 'equidistant'))))
     n = len(b) - 1
     cfg['boundaries'] = b
     si['t_ref'] = ([float(draw(st.integers(200, 320)))] * n if draw(st.booleans())
@@ -358,12 +382,14 @@ def run_tendencies(case):
   labels, scales_differ = _labels(cfg)
   results = []
   for su in setups:
-    if su.target == 'hs':
-      hs = su.forcing()
-      fn = jax.jit(lambda s, hs=hs: {'held_suarez_explicit_terms': hs.explicit_terms(s)})
-    else:
-      eq = su.equation()
+    eq = su.equation(with_forcing=False)
+    if su.target == 'sw':
       fn = jax.jit(lambda s, eq=eq: {'explicit_terms': eq.explicit_terms(s), 'implicit_terms': eq.implicit_terms(s)})
+    else:     # the Held-Suarez forcing of the same state is evaluated with every primitive-equation case
+      hs = su.forcing()
+      fn = jax.jit(lambda s, eq=eq, hs=hs: {'explicit_terms': eq.explicit_terms(s),
+                                            'implicit_terms': eq.implicit_terms(s),
+                                            'held_suarez_explicit_terms': hs.explicit_terms(s)})
     states = [su.state(d) for d in inputs]
     results.append([{k: su.to_si(v, 'tendency') for k, v in fn(s).items()} for s in states])
     su.states = states
@@ -455,19 +481,32 @@ def run_steps(case):
 
 
 SUBCHECKS = [
-    Subcheck('tendencies_scale_invariance', run_tendencies,
-             strategy=lambda tier: _case(tier, ('dry', 'moist', 'hs', 'sw'), False),
-             examples={'quick': 60, 'thorough': 800}, shards={'quick': 4, 'thorough': 10},
-             wall={'quick': 160.0, 'thorough': 1500.0},
+    Subcheck('tendencies_scale_invariance_pe', run_tendencies,
+             strategy=lambda tier: _case(tier, ('dry', 'moist'), False),
+             examples={'quick': 48, 'thorough': 600}, shards={'quick': 3, 'thorough': 8},
+             wall={'quick': 420.0, 'thorough': 1500.0},
              rule='non-trivial = scales differ by > 10x in >= 2 base dimensions; a state has non-zero vorticity, '
-                  'divergence and grad(lnps) (or layer potential)',
-             doc='explicit_terms / implicit_terms (Held-Suarez: forcing) in SI under two scales over 12 decades',
-             weight=3),
-    Subcheck('steps_scale_invariance', run_steps,
-             strategy=lambda tier: _case(tier, ('dry', 'moist', 'hs', 'sw'), True),
-             examples={'quick': 40, 'thorough': 500}, shards={'quick': 4, 'thorough': 10},
-             wall={'quick': 160.0, 'thorough': 1500.0},
+                  'divergence and grad(lnps)',
+             doc='explicit_terms / implicit_terms of the dry and moist primitive equations and the Held-Suarez forcing '
+                 'of the same state, in SI, under two scales over 12 decades', weight=3),
+    Subcheck('tendencies_scale_invariance_sw', run_tendencies,
+             strategy=lambda tier: _case(tier, ('sw',), False),
+             examples={'quick': 24, 'thorough': 300}, shards={'quick': 1, 'thorough': 3},
+             wall={'quick': 420.0, 'thorough': 1500.0},
+             rule='non-trivial = scales differ by > 10x in >= 2 base dimensions; a state has non-zero vorticity, '
+                  'divergence and layer potential',
+             doc='the same for the 1-3 layer shallow-water equations', weight=2),
+    Subcheck('steps_scale_invariance_pe', run_steps,
+             strategy=lambda tier: _case(tier, ('dry', 'moist', 'hs'), True),
+             examples={'quick': 42, 'thorough': 400}, shards={'quick': 3, 'thorough': 8},
+             wall={'quick': 420.0, 'thorough': 1500.0},
              rule='non-trivial = as above',
              doc='implicit_inverse and 1-6 step filtered trajectories (6 integrators; hs = dry equations + Held-Suarez '
-                 'forcing) in SI under two scales within 3 decades of the default', weight=3),
+                 'forcing) in SI under two scales within 3.5 decades of the default', weight=3),
+    Subcheck('steps_scale_invariance_sw', run_steps,
+             strategy=lambda tier: _case(tier, ('sw',), True),
+             examples={'quick': 20, 'thorough': 200}, shards={'quick': 1, 'thorough': 3},
+             wall={'quick': 420.0, 'thorough': 1500.0},
+             rule='non-trivial = as above',
+             doc='the same for shallow water (incl. filtered leapfrog)', weight=2),
 ]
